@@ -49,20 +49,24 @@ type Selector interface {
 }
 
 func BuildStaticWeightList(endpoints []endpoint.Endpoint) []int {
-	var maxRange, totalWeight, totalCapacity int
+	var maxRange, totalWeight int
 	minWeight, maxWeight := math.MaxInt32, math.MinInt32
 	for _, node := range endpoints {
 		if endpoint.WeightType(node.WeightType) != endpoint.EStaticWeight {
 			return nil
 		}
 		weight := int(node.Weight)
-		totalCapacity += weight
 		if maxWeight < weight {
 			maxWeight = weight
 		}
 		if minWeight > weight {
 			minWeight = weight
 		}
+	}
+
+	if maxWeight <= 0 {
+		// no endpoint has a positive static weight: nothing to scale by, select unweighted
+		return nil
 	}
 
 	if minWeight > 0 {
@@ -79,7 +83,7 @@ func BuildStaticWeightList(endpoints []endpoint.Endpoint) []int {
 
 	var weightToId []pair
 	idToWeight := map[int]int{}
-	staticWeightRouterCache := make([]int, 0, totalCapacity+100)
+	staticWeightRouterCache := make([]int, 0, len(endpoints))
 	for idx, node := range endpoints {
 		weight := int(node.Weight) * maxRange / maxWeight
 		if weight > 0 {
